@@ -195,12 +195,36 @@ theorem hunkMatchesAt_iff (content : List Line) (h : Hunk) (iw : Bool) (pf sf p 
         · rw [← e1]; congr 1; omega
         · rw [oldOf_trimmed_getElem? h.lines pf sf hp hs hl _ hi]; exact e2
 
-/-- `admissibleB` spelled out -/
+theorem takeWhile_length_le {α : Type} (q : α → Bool) (l : List α) : (l.takeWhile q).length ≤ l.length := by
+  induction l with
+  | nil => simp
+  | cons a l ih => simp only [List.takeWhile_cons]; split <;> simp <;> omega
+
+/-- the trailing context of a hunk is part of its old side -/
+theorem suffixCtx_le_oldOf_length (ls : List PatchLine) : suffixCtx ls ≤ (oldOf ls).length := by
+  have hle : suffixCtx ls ≤ ls.length := by
+    unfold suffixCtx prefixCtx
+    have := takeWhile_length_le (fun x : PatchLine => x.op == SP) ls.reverse
+    simpa using this
+  have e : oldOf ls = oldOf (ls.take (ls.length - suffixCtx ls)) ++ oldOf (ls.drop (ls.length - suffixCtx ls)) := by
+    rw [← oldOf_append, List.take_append_drop]
+  have hB : (oldOf (ls.drop (ls.length - suffixCtx ls))).length = suffixCtx ls := by
+    rw [oldOf_length_of_all_SP _ (all_SP_drop ls (suffixCtx ls) (Nat.le_refl _)), List.length_drop]; omega
+  rw [e, List.length_append, hB]; omega
+
+theorem fuzzPair_fst (ls : List PatchLine) (f : Nat) :
+    (fuzzPair ls f).1 = (f + prefixCtx ls) - max (prefixCtx ls) (suffixCtx ls) := rfl
+
+theorem fuzzPair_snd (ls : List PatchLine) (f : Nat) :
+    (fuzzPair ls f).2 = (f + suffixCtx ls) - max (prefixCtx ls) (suffixCtx ls) := rfl
+
+/-- `admissibleB` spelled out.  The conjunct `p ≤ file.length` is a consequence of the others (the lines which fuzz ignores at
+    the end of the hunk are old-side lines), spelled out for the users; since D109 the end of the file itself is a position. -/
 theorem admissibleB_iff (file : List Line) (h : Hunk) (iw : Bool) (maxFuzz : Int) (p f : Nat) :
     admissibleB file h iw maxFuzz p f = true ↔
       (f : Int) ≤ maxFuzz ∧ f ≤ max (prefixCtx h.lines) (suffixCtx h.lines) ∧
       (fuzzPair h.lines f).1 + (fuzzPair h.lines f).2 < h.lines.length ∧
-      p + (oldOf h.lines).length ≤ file.length + (fuzzPair h.lines f).2 ∧ p < file.length ∧
+      p + (oldOf h.lines).length ≤ file.length + (fuzzPair h.lines f).2 ∧ p ≤ file.length ∧
       ∀ j, j < (oldOf h.lines).length →
         j < (fuzzPair h.lines f).1 ∨ (oldOf h.lines).length - (fuzzPair h.lines f).2 ≤ j ∨
         ∃ a b, file[p + j]? = some a ∧ (oldOf h.lines)[j]? = some b ∧ lineEqB iw a b = true := by
@@ -208,7 +232,11 @@ theorem admissibleB_iff (file : List Line) (h : Hunk) (iw : Bool) (maxFuzz : Int
   simp only [Bool.and_eq_true, decide_eq_true_eq, List.all_eq_true, List.mem_range, Bool.or_eq_true,
     and_assoc, or_assoc]
   constructor
-  · rintro ⟨a, b, c, d, d', e⟩
+  · rintro ⟨a, b, c, d, e⟩
+    have d' : p ≤ file.length := by
+      have h1 := suffixCtx_le_oldOf_length h.lines
+      have h2 := fuzzPair_snd h.lines f
+      omega
     refine ⟨a, b, c, d, d', fun j hj => ?_⟩
     rcases e j hj with h1 | h1 | h1
     · exact Or.inl h1
@@ -217,30 +245,30 @@ theorem admissibleB_iff (file : List Line) (h : Hunk) (iw : Bool) (maxFuzz : Int
       split at h1
       · next a b ea eb => exact ⟨a, b, ea, eb, h1⟩
       · cases h1
-  · rintro ⟨a, b, c, d, d', e⟩
-    refine ⟨a, b, c, d, d', fun j hj => ?_⟩
+  · rintro ⟨a, b, c, d, _, e⟩
+    refine ⟨a, b, c, d, fun j hj => ?_⟩
     rcases e j hj with h1 | h1 | ⟨a, b, ea, eb, h1⟩
     · exact Or.inl h1
     · exact Or.inr (Or.inl h1)
     · refine Or.inr (Or.inr ?_)
       rw [ea, eb]; exact h1
 
-theorem fuzzPair_fst (ls : List PatchLine) (f : Nat) :
-    (fuzzPair ls f).1 = (f + prefixCtx ls) - max (prefixCtx ls) (suffixCtx ls) := rfl
-
-theorem fuzzPair_snd (ls : List PatchLine) (f : Nat) :
-    (fuzzPair ls f).2 = (f + suffixCtx ls) - max (prefixCtx ls) (suffixCtx ls) := rfl
-
-/-- under the side conditions on the fuzz, the probe of the scan is the placement spec -/
+/-- under the side conditions on the fuzz, the probe of the scan is the placement spec — at every position, the end of the
+    file included (D109; the hypothesis `p < file.length` of the D99 round is gone with the conjunct of `admissibleB`) -/
 theorem hunkMatchesAt_iff_admissibleB (file : List Line) (h : Hunk) (iw : Bool) (maxFuzz : Int) (p f : Nat)
     (h1 : (f : Int) ≤ maxFuzz) (h2 : f ≤ max (prefixCtx h.lines) (suffixCtx h.lines))
-    (h3 : (fuzzPair h.lines f).1 + (fuzzPair h.lines f).2 < h.lines.length) (hlt : p < file.length) :
+    (h3 : (fuzzPair h.lines f).1 + (fuzzPair h.lines f).2 < h.lines.length) :
     hunkMatchesAt file h iw (fuzzPair h.lines f).1 (fuzzPair h.lines f).2 p = true ↔
       admissibleB file h iw maxFuzz p f = true := by
   rw [admissibleB_iff, hunkMatchesAt_iff file h iw _ _ p
     (by rw [fuzzPair_fst]; omega) (by rw [fuzzPair_snd]; omega) (by omega)]
   constructor
-  · intro ⟨a, b⟩; exact ⟨h1, h2, h3, a, hlt, b⟩
+  · intro ⟨a, b⟩
+    have hle : p ≤ file.length := by
+      have g1 := suffixCtx_le_oldOf_length h.lines
+      have g2 := fuzzPair_snd h.lines f
+      omega
+    exact ⟨h1, h2, h3, a, hle, b⟩
   · intro ⟨_, _, _, a, _, b⟩; exact ⟨a, b⟩
 
 /-! ### D99: what of an admissible placement lies beyond the end of the file is context -/
@@ -300,7 +328,7 @@ theorem admissible_beyond_SP (file : List Line) (h : Hunk) (iw : Bool) (maxFuzz 
 /-! ### candidate positions -/
 
 theorem mem_candidates (ss ml size p : Nat) (h1 : ml ≤ ss) (h2 : ss ≤ max ml size) :
-    p ∈ candidates ss ml size ↔ ml ≤ p ∧ p < size := by
+    p ∈ candidates ss ml size ↔ ml ≤ p ∧ p ≤ size := by
   unfold candidates
   simp only [List.mem_append, List.mem_reverse, List.mem_range'_1]
   omega
@@ -311,9 +339,9 @@ theorem searchStart_ge (g : Int) (ml size : Nat) : ml ≤ searchStart g ml size 
 theorem searchStart_le (g : Int) (ml size : Nat) : searchStart g ml size ≤ max ml size := by
   unfold searchStart; omega
 
-/-- the scan probes exactly the positions from `minLine` to the end of the file -/
+/-- the scan probes exactly the positions from `minLine` to the end of the file, the end itself included (D109) -/
 theorem mem_candidates_searchStart (g : Int) (ml size p : Nat) :
-    p ∈ candidates (searchStart g ml size) ml size ↔ ml ≤ p ∧ p < size :=
+    p ∈ candidates (searchStart g ml size) ml size ↔ ml ≤ p ∧ p ≤ size :=
   mem_candidates _ ml size p (searchStart_ge g ml size) (searchStart_le g ml size)
 
 theorem searchStart_eq (g ml size : Nat) (h1 : ml ≤ g) (h2 : g ≤ size) :
@@ -321,10 +349,10 @@ theorem searchStart_eq (g ml size : Nat) (h1 : ml ≤ g) (h2 : g ≤ size) :
   unfold searchStart; omega
 
 /-- the first position probed is the search start -/
-theorem find?_candidates_head (g ml size : Nat) (P : Nat → Bool) (hlt : g < size) (hP : P g = true) :
+theorem find?_candidates_head (g ml size : Nat) (P : Nat → Bool) (hle : g ≤ size) (hP : P g = true) :
     (candidates g ml size).find? P = some g := by
   unfold candidates
-  have : size - g = (size - g - 1) + 1 := by omega
+  have : size + 1 - g = (size - g) + 1 := by omega
   rw [this, List.range'_succ]
   simp [hP]
 
@@ -406,32 +434,40 @@ theorem locateHunk_eq_loop (file : List Line) (h : Hunk) (iw : Bool) (offset max
   unfold locateHunk
   simp only [hc, if_false]
 
-/-- an admissible position is inside the file (since D99 part of `admissibleB` itself; the hypotheses on the hunk are kept for the callers) -/
-theorem admissible_lt_length (file : List Line) (h : Hunk) (iw : Bool) (maxFuzz : Int) (p f : Nat)
-    (_hwf : h.WF) (_hc : h.old.count ≠ 0) (hadm : admissibleB file h iw maxFuzz p f = true) :
-    p < file.length := by
-  obtain ⟨_, _, _, _, hlt, _⟩ := (admissibleB_iff file h iw maxFuzz p f).1 hadm
-  exact hlt
+/-- an admissible position is inside the file or its very end (the end only if every old-side line is among those at the end of
+    the hunk which fuzz ignores: D109) -/
+theorem admissible_le_length (file : List Line) (h : Hunk) (iw : Bool) (maxFuzz : Int) (p f : Nat)
+    (hadm : admissibleB file h iw maxFuzz p f = true) : p ≤ file.length := by
+  obtain ⟨_, _, _, _, hle, _⟩ := (admissibleB_iff file h iw maxFuzz p f).1 hadm
+  exact hle
+
+/-- an admissible position at which fuzz does not ignore the whole old side is inside the file (what `admissible_lt_length`
+    said for every admissible position between D99 and D109) -/
+theorem admissible_lt_length_of_lt (file : List Line) (h : Hunk) (iw : Bool) (maxFuzz : Int) (p f : Nat)
+    (hsf : (fuzzPair h.lines f).2 < (oldOf h.lines).length)
+    (hadm : admissibleB file h iw maxFuzz p f = true) : p < file.length := by
+  obtain ⟨_, _, _, hfit, _, _⟩ := (admissibleB_iff file h iw maxFuzz p f).1 hadm
+  omega
 
 /-- everything a successful `locate_hunk` tells (old side present): the returned position is admissible with
-    the returned fuzz, and no candidate position is admissible with a smaller fuzz -/
+    the returned fuzz, and no position from `minLine` on is admissible with a smaller fuzz -/
 theorem locateHunk_some (file : List Line) (h : Hunk) (iw : Bool) (offset maxFuzz : Int) (ml : Nat) (loc : Location)
     (hc : h.old.count ≠ 0) (hloc : locateHunk file h iw offset maxFuzz ml = some loc) :
     ∃ p f : Nat, loc = ⟨(p : Int), (f : Int), (p : Int) - (expectedLine h - 1 + offset)⟩ ∧
-      ml ≤ p ∧ p < file.length ∧ admissibleB file h iw maxFuzz p f = true ∧
-      ∀ p' f' : Nat, ml ≤ p' → p' < file.length → admissibleB file h iw maxFuzz p' f' = true → f ≤ f' := by
+      ml ≤ p ∧ p ≤ file.length ∧ admissibleB file h iw maxFuzz p f = true ∧
+      ∀ p' f' : Nat, ml ≤ p' → admissibleB file h iw maxFuzz p' f' = true → f ≤ f' := by
   rw [locateHunk_eq_loop file h iw offset maxFuzz ml hc] at hloc
   obtain ⟨p, f, _, e, h1, h2, h3, h4, h5⟩ := locateLoop_some _ _ _ _ _ _ _ _ _ _ _ hloc
   have hmem := (mem_candidates_searchStart _ ml file.length p).1 h3
   have hf1 : (f : Int) ≤ maxFuzz := by omega
   have hf2 : f ≤ max (prefixCtx h.lines) (suffixCtx h.lines) := by omega
   refine ⟨p, f, e, hmem.1, hmem.2, ?_, ?_⟩
-  · exact (hunkMatchesAt_iff_admissibleB file h iw maxFuzz p f hf1 hf2 h2 hmem.2).1 h4
-  · intro p' f' hp1 hp2 hadm
+  · exact (hunkMatchesAt_iff_admissibleB file h iw maxFuzz p f hf1 hf2 h2).1 h4
+  · intro p' f' hp1 hadm
     apply Nat.le_of_not_lt
     intro hlt
-    obtain ⟨a1, a2, a3, _, _⟩ := (admissibleB_iff file h iw maxFuzz p' f').1 hadm
-    have hm := (hunkMatchesAt_iff_admissibleB file h iw maxFuzz p' f' a1 a2 a3 hp2).2 hadm
+    obtain ⟨a1, a2, a3, _, hp2, _⟩ := (admissibleB_iff file h iw maxFuzz p' f').1 hadm
+    have hm := (hunkMatchesAt_iff_admissibleB file h iw maxFuzz p' f' a1 a2 a3).2 hadm
     have := h5 f' (Nat.zero_le _) hlt p' ((mem_candidates_searchStart _ ml file.length p').2 ⟨hp1, hp2⟩)
     rw [fuzzPair_fst, fuzzPair_snd] at hm
     rw [hm] at this
@@ -439,24 +475,24 @@ theorem locateHunk_some (file : List Line) (h : Hunk) (iw : Bool) (offset maxFuz
 
 /-- `locate_hunk` finds a hunk (old side present) whenever some position from `minLine` on is admissible -/
 theorem locateHunk_complete (file : List Line) (h : Hunk) (iw : Bool) (offset maxFuzz : Int) (ml : Nat)
-    (p f : Nat) (hc : h.old.count ≠ 0) (hp : ml ≤ p) (hlt : p < file.length)
+    (p f : Nat) (hc : h.old.count ≠ 0) (hp : ml ≤ p)
     (hadm : admissibleB file h iw maxFuzz p f = true) :
     ∃ loc, locateHunk file h iw offset maxFuzz ml = some loc := by
   rw [locateHunk_eq_loop file h iw offset maxFuzz ml hc]
-  obtain ⟨a1, a2, a3, _, _⟩ := (admissibleB_iff file h iw maxFuzz p f).1 hadm
-  have hm := (hunkMatchesAt_iff_admissibleB file h iw maxFuzz p f a1 a2 a3 hlt).2 hadm
+  obtain ⟨a1, a2, a3, _, hle, _⟩ := (admissibleB_iff file h iw maxFuzz p f).1 hadm
+  have hm := (hunkMatchesAt_iff_admissibleB file h iw maxFuzz p f a1 a2 a3).2 hadm
   rw [fuzzPair_fst, fuzzPair_snd] at hm a3
   exact locateLoop_complete _ _ _ _ _ _ _ _ _ 0 f p (Nat.zero_le _) (by omega) (by omega) a3
-    ((mem_candidates_searchStart _ ml file.length p).2 ⟨hp, hlt⟩) hm
+    ((mem_candidates_searchStart _ ml file.length p).2 ⟨hp, hle⟩) hm
 
 /-- a hunk (old side present) that is admissible without fuzz at the guessed position is placed exactly there -/
 theorem locateHunk_exact (file : List Line) (h : Hunk) (iw : Bool) (offset maxFuzz : Int) (ml g : Nat)
-    (hc : h.old.count ≠ 0) (hg : expectedLine h - 1 + offset = (g : Int)) (hm : ml ≤ g) (hlt : g < file.length)
+    (hc : h.old.count ≠ 0) (hg : expectedLine h - 1 + offset = (g : Int)) (hm : ml ≤ g)
     (hadm : admissibleB file h iw maxFuzz g 0 = true) :
     locateHunk file h iw offset maxFuzz ml = some ⟨g, 0, 0⟩ := by
   rw [locateHunk_eq_loop file h iw offset maxFuzz ml hc, hg]
-  obtain ⟨a1, a2, a3, _, _⟩ := (admissibleB_iff file h iw maxFuzz g 0).1 hadm
-  have hmt := (hunkMatchesAt_iff_admissibleB file h iw maxFuzz g 0 a1 a2 a3 hlt).2 hadm
+  obtain ⟨a1, a2, a3, _, hle, _⟩ := (admissibleB_iff file h iw maxFuzz g 0).1 hadm
+  have hmt := (hunkMatchesAt_iff_admissibleB file h iw maxFuzz g 0 a1 a2 a3).2 hadm
   rw [fuzzPair_fst, fuzzPair_snd] at hmt a3
   rw [locateLoop]
   simp only
@@ -464,8 +500,8 @@ theorem locateHunk_exact (file : List Line) (h : Hunk) (iw : Bool) (offset maxFu
     omega
   have g2 : ¬ ((0 + suffixCtx h.lines) - max (prefixCtx h.lines) (suffixCtx h.lines)
       + ((0 + prefixCtx h.lines) - max (prefixCtx h.lines) (suffixCtx h.lines)) ≥ h.lines.length) := by omega
-  rw [if_neg g1, if_neg g2, searchStart_eq g ml file.length hm (by omega),
-    find?_candidates_head g ml file.length _ hlt hmt]
+  rw [if_neg g1, if_neg g2, searchStart_eq g ml file.length hm hle,
+    find?_candidates_head g ml file.length _ hle hmt]
   simp
 
 end PatchModel
